@@ -149,7 +149,7 @@ Definition is_single (x : instr) : bool :=
    of a user-defined function *)
 Definition single_sem (q : query) (ce : cenv) (x : instr) : Prop :=
   (is_single x = true /\ forall rho v, den q rho v = den_instr x v) \/
-  (exists f p, x = Icallf p /\ lookup_cf f (ce_env ce) = Some p /\ forall rho v, den q rho v = den (QCallF f []) rho v).
+  (exists f p n, x = Icallf p /\ lookup_cf f 0 (ce_env ce) = Some (CF p n) /\ forall rho v, den q rho v = den (QCallF f []) rho v).
 
 Lemma comp_single : forall q ce cur pc nv sn x sn', comp q ce cur pc nv sn = Some ([x], nv, sn') -> single_sem q ce x.
 Proof.
@@ -161,13 +161,13 @@ Proof.
     assert (n = nv) by lia. subst n.
     destruct (app_single _ _ _ H1) as [[-> ->]|[-> ->]].
     + destruct (comp_nil _ _ _ _ _ _ _ _ Ec) as [E1 _].
-      destruct (IHb _ _ _ _ _ _ _ Ec0) as [[Hs Hd]|(f & p & -> & Hl & Hd)].
+      destruct (IHb _ _ _ _ _ _ _ Ec0) as [[Hs Hd]|(f & p & nf & -> & Hl & Hd)].
       * left. split; auto. intros rho v. rewrite (den_pipe_l _ _ E1). auto.
-      * right. exists f, p. split; [auto|]. split; [auto|]. intros rho v. rewrite (den_pipe_l _ _ E1). auto.
+      * right. exists f, p, nf. split; [auto|]. split; [auto|]. intros rho v. rewrite (den_pipe_l _ _ E1). auto.
     + destruct (comp_nil _ _ _ _ _ _ _ _ Ec0) as [E2 _].
-      destruct (IHa _ _ _ _ _ _ _ Ec) as [[Hs Hd]|(f & p & -> & Hl & Hd)].
+      destruct (IHa _ _ _ _ _ _ _ Ec) as [[Hs Hd]|(f & p & nf & -> & Hl & Hd)].
       * left. split; auto. intros rho v. rewrite (den_pipe_r _ _ E2). auto.
-      * right. exists f, p. split; [auto|]. split; [auto|]. intros rho v. rewrite (den_pipe_r _ _ E2). auto.
+      * right. exists f, p, nf. split; [auto|]. split; [auto|]. intros rho v. rewrite (den_pipe_r _ _ E2). auto.
   - (* empty *) inversion Hc; subst. left. split; auto.
   - (* iter *) injection Hc as H1 H2 H3. subst. destruct (app_single _ _ _ H1) as [[-> H]|[_ H]]; [|discriminate].
     inversion H; subst. destruct (comp_nil _ _ _ _ _ _ _ _ Ec) as [E1 _]. left. split; auto.
@@ -185,7 +185,7 @@ Proof.
   - (* call0 *) inversion Hc; subst. left. split; auto.
   - (* binop *) binop_contra Hc.
   - (* def *) def_contra Hc.
-  - (* callf *) callf_inv Hc. inversion Hc; subst. right. exists f, n. auto.
+  - (* callf *) callf_inv Hc. inversion Hc; subst. right. exists f, p, n0. auto.
 Qed.
 
 (* the code of an argument of an internal function (compileCallInternal / compileFuncDef) *)
